@@ -555,18 +555,30 @@ def group_by_header(lines, is_header):
     return groups
 
 
-def ddmin_lines(lines, pred, keep_head=1):
-    """Greedy one-at-a-time removal of lines (after the first keep_head) while pred holds."""
-    cur = list(lines)
-    changed = True
-    while changed and len(cur) > keep_head + 1:
-        changed = False
-        i = keep_head
-        while i < len(cur):
-            cand = cur[:i] + cur[i + 1:]
-            if pred(cand):
+def ddmin_lines(lines, pred, keep_head=1, budget_s=90):
+    """Delta debugging on lines (after the first keep_head): removes chunks of halving size while
+    pred holds, ending with one-at-a-time removal; stops when the time budget is spent and returns
+    the smallest failing list found so far (a history of 10^4 operations with seconds per run would
+    otherwise shrink for hours)."""
+    t0 = time.time()
+    head = list(lines[:keep_head])
+    cur = list(lines[keep_head:])
+    n = 2
+    while len(cur) >= 2 and time.time() - t0 < budget_s:
+        chunk = max(1, len(cur) // n)
+        reduced = False
+        i = 0
+        while i < len(cur) and time.time() - t0 < budget_s:
+            cand = cur[:i] + cur[i + chunk:]
+            if len(cand) < len(cur) and pred(head + cand):
                 cur = cand
-                changed = True
+                reduced = True
             else:
-                i += 1
-    return cur
+                i += chunk
+        if not reduced:
+            if chunk == 1:
+                break
+            n = min(len(cur), n * 2)
+        else:
+            n = max(2, n - 1)
+    return head + cur
